@@ -127,6 +127,11 @@ class EncoderSelector:
                         log.debug('Encoding timeout!')
                         continue
 
+                    except RuntimeError as e:
+                        # This candidate cannot encode these settings (e.g. a design variable with only one option)
+                        log.debug(f'Encoding failed: {e!s}')
+                        continue
+
                     # Get metrics
                     n_design_points = assignment_manager.encoder.get_n_design_points()
                     imputation_ratio = self._get_imp_ratio(
